@@ -10,7 +10,8 @@ ID = "C14"
 RULE = ("every tree shape with <=4/5 directory nodes x content assignments with <=1/2 varied directories x {no pattern, "
         "each single exclusion pattern instantiated from the tree's own names (bare directory name, name/, bare file "
         "name, a*.cmake, *.cmake, absolute file path, absolute directory path/)} (thorough: pairs of patterns) x "
-        "recursive x auto-exclusion x prefix; real cminx.main in a fresh sandbox.  Oracle (pure closure, no reference "
+        "recursive x auto-exclusion x prefix, plus symbolic links to directories (inside / outside the tree, followed or "
+        "not); real cminx.main in a fresh sandbox.  Oracle (pure closure, no reference "
         "walk): every index has one toctree with pairwise distinct entries, every entry has a generated target in the "
         "same output directory, every page and index is reachable from the top index.rst, file entries equal the pages "
         "of the directory, sub-indexes only in recursive mode, titles name prefix and directory.  non-trivial = >=2 "
@@ -44,13 +45,22 @@ def resolve(p, boxroot):
 
 
 def run_case(job):
-    parents, contents, recursive, auto, prefix, pats = job
+    parents, contents, recursive, auto, prefix, pats = job[:6]
+    symlink, follow = (job[6], job[7]) if len(job) > 6 else (None, False)
     tree = Tree(parents, contents)
     box = fsbox.Box("c14")
     msgs = []
     nt = False
     try:
         box.build(tree.spec("in"))
+        if symlink:
+            # a symbolic link to a directory with CMake files, inside the input directory
+            if symlink == "child" and len(parents) > 1:
+                target = tree.names[1]
+            else:
+                box.build({"elsewhere/c.cmake": fsbox.cmake_content("elsewhere/c")})
+                target = os.path.join("..", "elsewhere")
+            os.symlink(target, box.path("work", "in", "lnk"))
         rp = [resolve(p, box.root) for p in pats]
         import pathspec
         spec = pathspec.PathSpec.from_lines("gitwildmatch", rp)
@@ -59,7 +69,8 @@ def run_case(job):
         if auto and not root_files:
             return {"viol": [], "obs": None, "nt": None, "n": 0}    # domain: the input directory keeps a .cmake file
         with open(box.path("work", "s.yaml"), "w") as f:
-            f.write(f"input:\n  auto_exclude_directories_without_cmake: {str(auto).lower()}\n")
+            f.write(f"input:\n  auto_exclude_directories_without_cmake: {str(auto).lower()}\n"
+                    f"  follow_symlinks: {str(follow).lower()}\n")
         argv = ["-s", "s.yaml", "-o", "out"] + (["-r"] if recursive else []) + (["-p", prefix] if prefix else [])
         for p in rp:
             argv += ["-e", p]
@@ -74,7 +85,8 @@ def run_case(job):
             nidx = sum(1 for k in files if k.endswith("index.rst"))
             nt = nidx >= 2 or len(files) >= 4
         if msgs:
-            msgs = [f"{m}   [patterns {pats}, recursive={recursive}, auto={auto}, tree {tree.describe()}]" for m in msgs]
+            msgs = [f"{m}   [patterns {pats}, recursive={recursive}, auto={auto}, symlink={symlink} followed={follow}, "
+                    f"tree {tree.describe()}]" for m in msgs]
     finally:
         box.cleanup()
     msgs = [m.replace(box.root, "<box>") for m in msgs]
@@ -99,6 +111,16 @@ def run(ctx):
                     if not recursive and ps and not any("cmake" in p for p in ps):
                         continue
                     jobs.append((parents, a, recursive, auto, None if (len(jobs) % 3) else "P", ps))
+    # symbolic links to directories (followed and not followed)
+    for parents in shapes:
+        a = ["one"] * len(parents)
+        for symlink in ("child", "outside"):
+            for follow in (False, True):
+                for recursive, auto in itertools.product((True, False), (True, False)):
+                    jobs.append((parents, a, recursive, auto, None, [], symlink, follow))
+                    if quick:
+                        continue
+                    jobs.append((parents, a, recursive, auto, "P", ["lnk/"], symlink, follow))
     ctx.cov["bounds"] = {"tree_shapes": len(shapes), "runs": len(jobs)}
     ctx.sweep(run_case, jobs, space="trees x patterns x configurations", selftest=5)
     ctx.assumptions += ["with auto-exclusion on the input directory keeps a non-excluded .cmake file (domain of C13/C14)",
